@@ -264,6 +264,23 @@ theorem counter_roundtrip_any_table {τ : Type} (Y : Yaml τ) (hY : Lawful Y) (g
   · simp only [canon, strip]
     rw [lookupD_mapD, lookupD_sortD _ _ hkeys]
 
+/-- **Aliasing is irrelevant**: the model's values carry no identity, so `saveFile` / `loadFile` are
+    functions of the values alone; in particular when one scalar sits in two fields `f1`, `f2` of a row
+    (in Python possibly the very same object: `today` used twice, a cached date, a variable) both
+    fields are read back with that value.  Holds for every pair of names and every scalar kind. -/
+theorem equal_fields_roundtrip {τ : Type} (Y : Yaml τ) (hY : Lawful Y) (g g' : G) (doc : StateOf τ)
+    (hn : g.deps.Nodup) (hs : saveFile Y g = .ok doc) (hl : loadFile Y doc = .ok g')
+    (k : String) (r : Row) (hkeys : (keysD g.pNick).Nodup) (hk : lookupD k g.pNick = some r)
+    (hf : (keysD r.values).Nodup) (f1 f2 : String) (v : Sc)
+    (h1 : lookupD f1 r.values = some (.sc v)) (h2 : lookupD f2 r.values = some (.sc v)) :
+    ∃ r', lookupD k g'.pNick = some r' ∧ lookupD f1 r'.values = some (.sc v) ∧
+      lookupD f2 r'.values = some (.sc v) := by
+  obtain ⟨r1, hr1, _, hv1⟩ := field_roundtrip_any_name Y hY g g' doc hn hs hl k r hkeys hk hf f1 v h1
+  obtain ⟨r2, hr2, _, hv2⟩ := field_roundtrip_any_name Y hY g g' doc hn hs hl k r hkeys hk hf f2 v h2
+  rw [hr1] at hr2
+  cases hr2
+  exact ⟨r1, hr1, hv1, hv2⟩
+
 /-! ### 3. load, then save again -/
 
 /-- saving does not see the difference between a state and what a load gives back for it -/
